@@ -640,7 +640,7 @@ def k15_map(ctx, pid: str):
             out.append(("K15.map-key", name, okkey, "a module must be filed under its own start overhang: key %r value %r" % (key, val)))
         # absent / present-same: no error from the first loop
         gets = [e for e in o.path.effects if e[0] in ("map-get", "map-haskey", "map-getitem")]
-        keys_loop = [e for e in o.path.effects if e[0] == "loop" and str(e[1]).startswith("keys:")]
+        keys_loop = [e for e in o.path.effects if e[0] == "loop" and str(e[1]).startswith(("keys:", "items:"))]
         rc_asked = [e for e in gets if isinstance(e[2], Term) and strip_norm(e[2]).op == "reverse_complement"
                     and keys_loop and strip_norm(strip_norm(e[2]).args[0]) == keys_loop[0][2]]
         if o.kind == "raise" and not rc_asked:
@@ -743,7 +743,7 @@ def k14_walk(ctx, pid: str):
         stop = [c for c in cmps if {repr(c[0]), repr(c[1])} == {repr(KAPPA), repr(START_V)}]
         out.append(("K14.stop", name, len(stop) >= 1 and len(cmps) == len(stop),
                     "the loop must stop exactly when the current overhang equals the vector's upstream overhang: comparisons %r" % (cmps,)))
-        cond = dict(o.path.choices).get("loop-cond")
+        cond = dict(o.path.choices).get("loop-cond") and not dict(o.path.choices).get("loop-break")
         pops = [e for e in o.path.effects if e[0] in ("map-pop", "map-getitem")]
         if cond:
             # one inductive step
